@@ -81,6 +81,8 @@ pub assume_specification [std::path::PathBuf::new] () -> (r: std::path::PathBuf)
     ensures pbb(&r) == Seq::<u8>::empty();
 pub assume_specification [std::path::PathBuf::as_path] (p: &std::path::PathBuf) -> (r: &std::path::Path)
     ensures pab(r) == pbb(p);
+pub assume_specification [<std::path::PathBuf as core::ops::Deref>::deref] (p: &std::path::PathBuf) -> (r: &std::path::Path)
+    ensures pab(r) == pbb(p);
 pub assume_specification [std::path::Path::to_path_buf] (p: &std::path::Path) -> (r: std::path::PathBuf)
     ensures pbb(&r) == pab(p);
 // shim D6.path_push_osstr: pushing onto an EMPTY PathBuf makes it exactly the pushed path
@@ -94,3 +96,15 @@ fn shim_pathbuf_push_bytes(p: &mut std::path::PathBuf, b: &[u8])
 fn shim_osstring_from_slice(b: &[u8]) -> (r: OsString)
     ensures osbs(&r) == b@
 { OsString::from_vec(b.to_vec()) }
+/// the final component of a path (None for "", "/", "..", ...): std's Path::file_name, uninterpreted
+pub uninterp spec fn fname(b: Seq<u8>) -> Option<Seq<u8>>;
+#[verifier::external_body]
+fn shim_path_file_name<'a>(p: &'a std::path::Path) -> (r: Option<&'a OsStr>)
+    ensures (match r { Some(o) => fname(pab(p)) == Some(osb(o)), None => fname(pab(p)) is None })
+{ p.file_name() }
+/// String::from_utf8_lossy of the bytes (invalid sequences -> U+FFFD): uninterpreted
+pub uninterp spec fn lossy(b: Seq<u8>) -> Seq<char>;
+#[verifier::external_body]
+fn shim_os_lossy(p: &OsStr) -> (r: String)
+    ensures r@ == lossy(osb(p))
+{ p.to_string_lossy().into_owned() }
